@@ -60,6 +60,8 @@ package trend
 //@ func interface Ma.IdlePeriod
 //@ pure
 //@ ensures result >= 0
+//@ func interface Ma.String
+//@ pure
 //@ func interface Ma.Compute
 //@ requires consumed(p0) == 0
 //@ ensures[C02] len(result) == max(0, len(p0) - self.IdlePeriod())
